@@ -10,6 +10,7 @@
 //   - the model's findFile on (layout now, ms.Path now, name)          (driver op find),
 //   - Goyang.Spec.File.choose on the same triple                       (driver op spec.find),
 //   - the same lookup on a fresh Modules value with the same Path      (Go-side oracle),
+//
 // so whatever an earlier lookup - failed or successful, of this or of another name - left behind
 // in the Modules value must not change the answer.
 package main
@@ -22,6 +23,7 @@ import (
 	"path/filepath"
 	"sort"
 	"strings"
+	"time"
 
 	"github.com/openconfig/goyang/pkg/yang"
 	"verif/harness/lib"
@@ -636,12 +638,12 @@ func randHistory(rng *rand.Rand) histCase {
 			name = failed[rng.Intn(len(failed))]
 		}
 		if rng.Intn(12) == 0 {
-			name = "foo@2020-01-01"
-			add(st("read", name))
+			// (Read only: as the name of a module it is not one the files of the layouts hold)
+			add(st("read", "foo@2020-01-01"))
 		} else {
 			add(lkinds[rng.Intn(len(lkinds))].step(name))
+			failed = append(failed, name) // whether it failed is not known here: bias only
 		}
-		failed = append(failed, name) // whether it failed is not known here: bias only
 	}
 	return c
 }
@@ -727,9 +729,9 @@ func judgeLook(c histCase, lk hlook, v histVerdict) *lib.Disagreement {
 		if !specBad {
 			want = lk.Fresh
 		}
-		d.What = fmt.Sprintf("C13 (b) `a module that is not yet loaded is fetched from the first search-path directory holding a candidate` fails on a Modules value with a history: "+
-			"step %d %s with Path %q answers [%s]; for the layout as it is now the specification says [%s], a fresh Modules with the same Path answers [%s] (model: [%s]); history: %s",
-			lk.Step, how, lk.Path, unhexLine(lk.Line), unhexLine(want), unhexLine(lk.Fresh), unhexLine(v.Model), describeHistory(c, lk.Step))
+		d.What = fmt.Sprintf("C13 (b) `a module that is not yet loaded is fetched from the first search-path directory holding a candidate` fails on a Modules with a history: "+
+			"after %s the lookup (step %d) answers [%s]; specification for the layout as it is now: [%s]; a fresh Modules with the same Path %q: [%s]; model: [%s]",
+			describeHistory(c, lk.Step), lk.Step, unhexLine(lk.Line), unhexLine(want), lk.Path, unhexLine(lk.Fresh), unhexLine(v.Model))
 	case boundBad:
 		d.Kind = "spec"
 		d.SpecVerdict = "violates"
@@ -764,6 +766,7 @@ func askLook(d *lib.Driver, lk hlook) histVerdict {
 }
 
 func partH(f *lib.Flags, res *lib.Result, distinct *lib.Distinct, work string) int64 {
+	t0 := time.Now()
 	cases := enumHistories(f.Thorough())
 	nEnum := len(cases)
 	// corpus: the two histories of the demonstration of seeded change C13-j22 (a candidate supplied after a
@@ -816,9 +819,15 @@ func partH(f *lib.Flags, res *lib.Result, distinct *lib.Distinct, work string) i
 			}
 		}
 	}
+	if os.Getenv("C13_TIMING") != "" {
+		fmt.Fprintf(os.Stderr, "histories: Go side done after %v, %d driver requests\n", time.Since(t0), len(reqs))
+	}
 	ans, err := lib.ParBatch(f.Driver, reqs, f.Procs)
 	if err != nil {
 		lib.Fatal("driver: %v", err)
+	}
+	if os.Getenv("C13_TIMING") != "" {
+		fmt.Fprintf(os.Stderr, "histories: driver done after %v\n", time.Since(t0))
 	}
 	var found, noClaim int64
 	k := 0
